@@ -14,6 +14,7 @@
 #include <nix/Hydra.hpp>
 #include <nix/NDSize.hpp>
 #include <nix/Platform.hpp>
+#include <nix/Exception.hpp>
 
 #include <vector>
 #include <iostream>
@@ -64,6 +65,9 @@ private:
 template<typename T>
 const T NDArray::get(size_t index) const
 {
+    if (index >= dstore.size() / sizeof(T)) {
+        throw OutOfBounds("NDArray::get: index is out of bounds", index);
+    }
     T value;
     const byte_type *offset = dstore.data() + sizeof(T) * index;
     memcpy(&value, offset, sizeof(T));
@@ -82,6 +86,9 @@ const T NDArray::get(const NDSize &index) const
 template<typename T>
 void NDArray::set(size_t index, T value)
 {
+    if (index >= dstore.size() / sizeof(T)) {
+        throw OutOfBounds("NDArray::set: index is out of bounds", index);
+    }
     byte_type *offset = dstore.data() + sizeof(T) * index;
     memcpy(offset, &value, sizeof(T));
 }
